@@ -82,4 +82,6 @@ FLOORS_QUICK = {
     "class:timedelta": 30, "class:obj-int-str": 8, "class:bool": 25,
     "class:obj-bigint": 8, "class:obj-int-big": 10, "class:obj-timestamp": 10,
     "class:complex128": 9, "class:datetime-tz-berlin": 10,
+    "class:obj-pydatetime-out-of-ns-bounds": 8, "class:obj-timestamp-mixed-tz": 8,
+    "class:obj-pytime": 8, "class:obj-pydate": 8, "class:obj-pytimedelta-huge": 7,
 }
